@@ -11,6 +11,7 @@ import ast
 from typing import Dict, Iterable, List, Optional, Set, Tuple
 
 from ..model import AnalysisError, FuncInfo, Param, Program, bind_call, dotted
+from ..symex import bound_receiver as _bound_receiver
 from ..symex import (T, Evaluator, Event, Frame, call_parts, func_name, is_const, match_scan,
                      match_vmap, mk, show, sym, transparent)
 
@@ -125,7 +126,7 @@ def bind1(ctx, modules: Iterable[str], rule: str = "BIND-1") -> int:
             n += 1
             continue
         for callee, recv_cls in cands:
-            bound_self = f.op in ("attr", "cls") and not callee.is_staticmethod
+            bound_self = (f.op == "cls" and not callee.is_staticmethod) or _bound_receiver(f, callee)
             ok, msg, mapping = bind_call(callee, len([a for a in pos if a.op != "star"]),
                                          list(kws.keys()), bound_self, has_star, has_dstar)
             key = (rule, _site_label(e, fi), _callee_label(f), callee.qualname, ok, msg)
